@@ -63,6 +63,10 @@ TABLE = {
    text='(a) a real PubSubManager/AsyncPubSubManager with an in-memory backend and local clients; its real listener thread/task is fed sequences of bad channel messages (undecodable bytes, pickles/JSON of non-dicts incl. strings and lists containing "method", dicts with missing/surplus/wrong-typed fields, unknown methods, own-host echoes of every method, callback messages for other hosts/unknown ids; as bytes, text or dict), a quarter combined with an injected fault (server operation raises, send raises, the listen iterator raises and is restarted); after each one a sentinel emit from another host must reach its local client exactly once and echoes/foreign callbacks must have no effect; (b) the bundled Redis backends driven with a fake redis client whose connections/subscriptions fail on schedule: every broker message yielded once, retry sleeps equal to the 1,2,4..60 schedule',
    note='injected faults are Exception subclasses; undecodable bytes start with a non-opcode byte because unpickling hostile pickle programs is outside what python-socketio can contain; redis is a harness-provided fake module',
    tech='runtime monitoring: fault injection + sentinel exactly-once oracle on the real listener loop'),
+ 'C07': dict(cat='exploration',
+   text='clusters of 2-4 real Server/AsyncServer objects with real PubSubManager/AsyncPubSubManager instances joined by an in-memory pickle channel (their real listener threads/tasks consume one message at a time under harness control) plus a write-only manager; generated histories of connects, room operations, emits (with skip_sid / callbacks) and disconnects issued via arbitrary hosts; immediate mode: exact recipient multiset per emit against the single-server rooms model, rooms(), disconnect handler once, callback once on the issuing host; delayed mode with random per-host lag: at-most-once, eligibility within the flight window (extended over membership operations that are themselves in flight) and exactness for emits not raced',
+   note='FIFO reliable channel; delayed mode issues a membership operation only when no membership message is in flight (crossing operations are order-dependent for any implementation); callbacks only for emits addressed to the client\'s own sid',
+   tech='runtime monitoring: history + single-server reference model over the union of clients, logical-time flight windows'),
 }
 # filled in as checks are built; see bottom of file for the not-built reason
 
